@@ -60,7 +60,14 @@ inductive ListOut where
   | notFound
   | expired
   | other (elapsed : Bool)
+  /-- an empty List with an empty/zero revision after which the call is observed in its polling steady state (the
+  harness cancels the context while the cache sleeps for WatchPollInterval) -/
+  | pollStop
 deriving Repr
+
+def ListOut.isPollStop : ListOut → Bool
+  | .pollStop => true
+  | _ => false
 
 inductive WatchOut where
   | ok
@@ -325,6 +332,8 @@ def listStep (wc : WC) (lo : ListOut) : WC × Bool × Bool :=
       -- the harness never scripts that)
       ({ wc with listPolling := true, watchPolling := false, rev := 0 }, true, false)
     else ({ wc with rev := lrev, errCount := 0 }, false, true)
+  | .pollStop =>
+    ({ wc.processList [] with listPolling := true, watchPolling := false, rev := 0 }, true, false)
 
 /-- The Watch-create part of one loop iteration for the outcome `wo`:
 (new state, `performFullResync`, watch created?). -/
@@ -349,10 +358,11 @@ def resyncLoop (fin : List KV × Nat) : Nat → WC → Bool → List ListOut →
   | 0, _, _, _, _ => none
   | fuel + 1, wc, full, lists, watches =>
     let full := full || wc.rev = 0
-    let r : WC × Bool × Bool :=
-      if full then listStep wc (lists.headD (ListOut.ok fin.1 fin.2)) else (wc, false, true)
+    let lo := lists.headD (ListOut.ok fin.1 fin.2)
+    let r : WC × Bool × Bool := if full then listStep wc lo else (wc, false, true)
     let lists := if full then lists.tail else lists
-    if !r.2.2 then resyncLoop fin fuel r.1 r.2.1 lists watches
+    if full && lo.isPollStop then some r.1
+    else if !r.2.2 then resyncLoop fin fuel r.1 r.2.1 lists watches
     else
       let w := watchStep r.1 r.2.1 (watches.headD WatchOut.ok)
       if w.2.2 then some w.1 else resyncLoop fin fuel w.1 w.2.1 lists watches.tail
@@ -371,7 +381,8 @@ def eventLoop : WC → List Ev → WC
       if wc.errCount ≥ maxErrorsPerRevision then { wc with rev := 0, errCount := 0 } else wc
     | .unknown => eventLoop wc evs
 
-/-- One call of `resyncAndLoopReadingFromWatcher` with the scripted outcomes. -/
+/-- One call of `resyncAndLoopReadingFromWatcher` with the scripted outcomes.  (A call that ends with `pollStop`
+has no watch, hence no events: scripts combine `pollStop` only with `evs = []`.) -/
 def runCall (wc : WC) (lists : List ListOut) (watches : List WatchOut) (fin : List KV × Nat) (evs : List Ev) : WC :=
   let wc := { wc with out := [], resets := 0 }
   let wc := (resyncLoop fin (lists.length + watches.length + 2) wc false lists watches).getD wc
